@@ -152,7 +152,13 @@ type env struct {
 	N, K       int
 	shards     []int
 	lk         locker
+	unroutable bool   // pointer / float keys on a group locker: remap cannot route them, every lock call panics before it locks
+	alias      []int  // key ids that are EQUAL keys in Go (0.0 and -0.0): exclusion is judged per equality class
+	ptrs       []*obj // pointer keys (kind ptr), for `mutate`
 }
+
+// obj is the pointee of the pointer keys: the key is the pointer's identity, not the contents
+type obj struct{ N int }
 
 func parseInit(f []string) (*env, bool) {
 	if len(f) < 6 {
@@ -171,6 +177,9 @@ func parseInit(f []string) (*env, bool) {
 	single := e.kind == "kl" || e.kind == "tkl"
 	if !(single || e.kind == "klg" || e.kind == "tkg") {
 		return nil, false
+	}
+	if e.hash == "ptr" || e.hash == "flt" {
+		return parseInitOdd(e, nums, single)
 	}
 	special := e.hash == "neg" || e.hash == "n64" || e.hash == "hit"
 	if special {
@@ -275,11 +284,78 @@ func parseInit(f []string) (*env, bool) {
 	return e, true
 }
 
+// parseInitOdd: key kinds outside remap's routable domain. `ptr`: pointer keys (fine on the single lockers: identity;
+// unroutable on the group lockers). `flt`: float64 keys 0.0, -0.0 (ONE key: 0.0 == -0.0), 1.5, 2.5 … on group lockers only.
+func parseInitOdd(e *env, nums []int, single bool) (*env, bool) {
+	if len(nums) < 3 {
+		return nil, false
+	}
+	e.prime, e.N, e.K, e.shards = nums[0], nums[1], nums[2], nums[3:]
+	if e.prime < 1 || e.prime > 100 || e.N < 1 || e.N > 48 || e.K < 1 || e.K > 48 || len(e.shards) != e.K || (single && e.prime != 1) || (e.hash == "flt" && single) {
+		return nil, false
+	}
+	for _, s := range e.shards {
+		if s >= e.prime {
+			return nil, false
+		}
+	}
+	e.unroutable = !single
+	e.alias = make([]int, e.K)
+	for i := range e.alias {
+		e.alias[i] = i
+	}
+	opt := remap.WithPrime(uint64(e.prime))
+	if e.hash == "ptr" {
+		anyVals := make([]interface{}, e.K)
+		for i := 0; i < e.K; i++ {
+			p := &obj{N: i}
+			e.ptrs = append(e.ptrs, p)
+			anyVals[i] = p
+		}
+		switch e.kind {
+		case "kl":
+			e.lk = &anyLocker{l: keylock.NewKeyLocker(), vals: anyVals}
+		case "klg":
+			e.lk = &anyLocker{l: keylock.NewKeyLockeGrp(opt), vals: anyVals}
+		case "tkl":
+			e.lk = &tLocker[*obj]{l: keylock.NewTKeyLocker[*obj](), vals: e.ptrs, mk: func(k int) *obj { return &obj{N: k} }}
+		default:
+			e.lk = &tLocker[*obj]{l: keylock.NewTKeyLockeGrp[*obj](opt), vals: e.ptrs, mk: func(k int) *obj { return &obj{N: k} }}
+		}
+		return e, true
+	}
+	fl := make([]float64, e.K)
+	anyVals := make([]interface{}, e.K)
+	for i := range fl {
+		switch i {
+		case 0:
+			fl[i] = 0.0
+		case 1:
+			fl[i] = math.Copysign(0, -1)
+			e.alias[1] = 0
+		default:
+			fl[i] = float64(i) + 0.5
+		}
+		anyVals[i] = fl[i]
+	}
+	if e.kind == "klg" {
+		e.lk = &anyLocker{l: keylock.NewKeyLockeGrp(opt), vals: anyVals}
+	} else {
+		e.lk = &tLocker[float64]{l: keylock.NewTKeyLockeGrp[float64](opt), vals: fl, mk: func(k int) float64 { return float64(k) + 0.5 }}
+	}
+	return e, true
+}
+
 type call struct {
 	task   *sched.Task
 	unlock bool
 	write  bool
+	multi  bool
 	keys   []int
+	// cand: the keys this call could be asleep on when it parked (nil once anything was unlocked since)
+	cand []int
+	// what probes have shown about the call's other keys, by side of cand's shard: held / free below / above
+	heldLow, heldHigh, freeLow, freeHigh bool
 }
 
 // runner state: bookkeeping from P-observables only (which calls returned)
@@ -290,7 +366,9 @@ type runner struct {
 	held []map[int]bool // per thread: key -> write?
 	// disciplined: every acquisition so far respected the global order (shard index, key id) and lists were ascending
 	disciplined bool
-	hits        []corr.Hit
+	// unroutableSeen: the last call panicked in remap before locking (key kinds ptr / flt on group lockers)
+	unroutableSeen bool
+	hits           []corr.Hit
 	hitSeen     map[string]bool
 }
 
@@ -352,7 +430,24 @@ func (r *runner) settle() {
 			continue
 		}
 		if strings.HasPrefix(res, "panic:") {
+			if r.e.unroutable && !c.unlock && strings.Contains(res, "unsupported.type.for.slot") {
+				// remap refuses the key type before anything is locked: the call had no effect
+				r.unroutableSeen = true
+				r.cur[t] = nil
+				continue
+			}
 			r.hit("panic", fmt.Sprintf("a %s call by thread %d on keys %v panicked: %s", map[bool]string{true: "unlock", false: "lock"}[c.unlock], t, c.keys, res))
+		}
+		if c.multi && !c.unlock && !strings.HasPrefix(res, "panic:") {
+			// all held: when Locks/RLocks returns, every listed key is registered in that mode (hook) — the probes of the
+			// exclusion monitors are the P-level side of the same clause
+			for _, k := range c.keys {
+				rc, wc, p := r.e.lk.Counts(k)
+				if !p || (c.write && wc < 1) || (!c.write && rc < 1) {
+					r.hit("all-held:listed-key-not-held", fmt.Sprintf("%s: a multi-key lock call by thread %d over %d keys returned, yet key %d of the list (position %d) is not held in that mode (entry present=%v readCount=%d writeCount=%d)", r.e.kind, t, len(c.keys), k, r.acqPos(c.keys, k), p, rc, wc))
+					break
+				}
+			}
 		}
 		for _, k := range c.keys {
 			if c.unlock {
@@ -381,17 +476,30 @@ func (r *runner) status() string {
 func (r *runner) monitors(op string) {
 	kind := r.e.kind
 	// (1) exclusion
-	for k := 0; k < r.e.K; k++ {
-		var ws, rs []int
-		for t := 0; t < r.e.N; t++ {
-			if w, ok := r.held[t][k]; ok {
-				if w {
-					ws = append(ws, t)
-				} else {
-					rs = append(rs, t)
-				}
+	cls := func(k int) int {
+		if r.e.alias != nil && k < len(r.e.alias) {
+			return r.e.alias[k] // equal keys (0.0 / -0.0) are one key
+		}
+		return k
+	}
+	wsOf, rsOf := map[int][]int{}, map[int][]int{}
+	var classes []int
+	for t := 0; t < r.e.N; t++ {
+		for k, w := range r.held[t] {
+			c := cls(k)
+			if len(wsOf[c])+len(rsOf[c]) == 0 {
+				classes = append(classes, c)
+			}
+			if w {
+				wsOf[c] = append(wsOf[c], t)
+			} else {
+				rsOf[c] = append(rsOf[c], t)
 			}
 		}
+	}
+	sort.Ints(classes)
+	for _, k := range classes {
+		ws, rs := wsOf[k], rsOf[k]
 		if len(ws) > 1 {
 			r.hit("excl:two-writers", fmt.Sprintf("%s: key %d is write-locked by threads %v at once (after `%s`)", kind, k, ws, op))
 		}
@@ -505,12 +613,103 @@ func (r *runner) doCall(t int, unlock, write bool, keys []int, multi bool) strin
 		}
 		return "ok"
 	}
-	r.cur[t] = &call{task: r.s.Go(fmt.Sprintf("t%d", t), fn), unlock: unlock, write: write, keys: ks}
+	r.unroutableSeen = false
+	r.cur[t] = &call{task: r.s.Go(fmt.Sprintf("t%d", t), fn), unlock: unlock, write: write, multi: multi, keys: ks}
 	r.settle()
+	if r.unroutableSeen {
+		return "unroutable"
+	}
+	if unlock {
+		// a parked call that could be asleep on one of the released keys may have moved on: its blockers are no longer known
+		for _, c := range r.cur {
+			if c == nil {
+				continue
+			}
+			for _, x := range c.cand {
+				for _, k := range ks {
+					if x == k {
+						c.cand = nil
+					}
+				}
+			}
+		}
+	}
 	if !unlock && r.cur[t] == nil {
 		r.orderMonitor(t, write, ks, pre)
+		r.shardOrderProbe(t, write, ks, false)
+	}
+	if !unlock && r.cur[t] != nil {
+		r.cur[t].cand = pre2cand(r.blockers()[t])
+		if len(ks) == 1 {
+			r.shardOrderProbe(t, write, ks, true)
+		}
 	}
 	return r.status()
+}
+
+func pre2cand(x []int) []int {
+	if len(x) == 0 {
+		return nil
+	}
+	return x
+}
+
+// shardOrderProbe: what a single-key probe tells about the keys a parked multi-key call M holds. M took its shards in ONE
+// monotone order (whatever its direction) and sleeps in the shard of its blockers, so relative to that shard its other keys
+// are all held on one side and all free on the other. A probe that parks on a key only M can hold shows "held"; a probe
+// that gets a key of M at once shows "free". Held and free on the same side, or held on both sides, or free on both sides,
+// contradicts every monotone shard order.
+func (r *runner) shardOrderProbe(t int, write bool, keys []int, parked bool) {
+	for m, c := range r.cur {
+		if m == t || c == nil || c.unlock || !c.multi || len(c.cand) == 0 {
+			continue
+		}
+		sb := r.e.shards[c.cand[0]]
+		one := true
+		for _, x := range c.cand {
+			if r.e.shards[x] != sb {
+				one = false
+			}
+		}
+		if !one {
+			continue
+		}
+		for _, a := range keys {
+			if r.acqPos(c.keys, a) < 0 || !(c.write || write) || r.e.shards[a] == sb {
+				continue
+			}
+			if parked {
+				// only M can be the reason: nobody holds `a` by a returned call, no other parked call lists it
+				sole := true
+				for u := 0; u < r.e.N; u++ {
+					if u == t || u == m {
+						continue
+					}
+					if _, ok := r.held[u][a]; ok {
+						sole = false
+					}
+					if cu := r.cur[u]; cu != nil && r.acqPos(cu.keys, a) >= 0 {
+						sole = false
+					}
+				}
+				if !sole {
+					continue
+				}
+				if r.e.shards[a] < sb {
+					c.heldLow = true
+				} else {
+					c.heldHigh = true
+				}
+			} else if r.e.shards[a] < sb {
+				c.freeLow = true
+			} else {
+				c.freeHigh = true
+			}
+			if (c.heldLow && c.freeLow) || (c.heldHigh && c.freeHigh) || (c.heldLow && c.heldHigh) || (c.freeLow && c.freeHigh) {
+				r.hit("order:parked-call-shard-order-inconsistent", fmt.Sprintf("%s: thread %d is parked in a multi-key lock call over %d keys, asleep in shard %d (blockers %v); probes show keys of lower shards held=%v free=%v and keys of higher shards held=%v free=%v — no monotone order of the shards explains that (last probe: key %d in shard %d, thread %d %s)", r.e.kind, m, len(c.keys), sb, c.cand, c.heldLow, c.freeLow, c.heldHigh, c.freeHigh, a, r.e.shards[a], t, map[bool]string{true: "parked", false: "got it at once"}[parked]))
+			}
+		}
+	}
 }
 
 // acqPos: list position of key k in keys (-1 if absent). Within one shard a call takes its keys in list order; the
@@ -587,14 +786,21 @@ func (r *runner) orderMonitor(t int, write bool, keys []int, pre map[int][]int) 
 
 // burst: the fold of single-key calls over keys lo..hi-1 by thread t, stopping when t parks (keys it already holds /
 // does not hold in that mode are skipped). Extra key ids (>= K of the init line) live in shard 0 of a 1-shard locker.
-func (r *runner) burst(t int, unlock, write bool, lo, hi int) string {
+func (r *runner) growTo(hi int) {
 	if hi > r.e.K {
 		r.e.lk.Grow(hi)
 		for k := r.e.K; k < hi; k++ {
 			r.e.shards = append(r.e.shards, 0)
+			if r.e.alias != nil {
+				r.e.alias = append(r.e.alias, k)
+			}
 		}
 		r.e.K = hi
 	}
+}
+
+func (r *runner) burst(t int, unlock, write bool, lo, hi int) string {
+	r.growTo(hi)
 	for k := lo; k < hi; k++ {
 		if r.cur[t] != nil {
 			break
@@ -809,6 +1015,26 @@ func runScriptStream(c corr.Case, emit func(string)) (res corr.Result) {
 			if ok1 && ok2 && ok3 && (f[2] == "w" || f[2] == "r") && t < r.e.N && r.e.prime == 1 && lo < hi && hi <= 2048 && hi-lo <= 1600 {
 				out = r.burst(t, f[0] == "unburst", f[2] == "w", lo, hi)
 				r.monitors(line)
+			}
+		case len(f) == 5 && (f[0] == "lockrange" || f[0] == "unlockrange"):
+			t, ok1 := parseNat(f[1])
+			lo, ok2 := parseNat(f[3])
+			hi, ok3 := parseNat(f[4])
+			if ok1 && ok2 && ok3 && (f[2] == "w" || f[2] == "r") && t < r.e.N && r.e.prime == 1 && r.e.lk.Multi() && lo < hi && hi <= 8192 && hi-lo <= 6500 {
+				r.growTo(hi)
+				ks := make([]int, 0, hi-lo)
+				for k := lo; k < hi; k++ {
+					ks = append(ks, k)
+				}
+				out = r.doCall(t, f[0] == "unlockrange", f[2] == "w", ks, true)
+				r.monitors(line)
+			}
+		case len(f) == 2 && f[0] == "mutate":
+			if k, ok := parseNat(f[1]); ok && k < r.e.K {
+				if k < len(r.e.ptrs) {
+					r.e.ptrs[k].N += 1000 // the pointee changes, the key (the pointer) does not
+				}
+				out = "ok"
 			}
 		case len(f) == 3 && f[0] == "stress":
 			g, ok1 := parseNat(f[1])
